@@ -24,7 +24,9 @@ def phNonce : Bytes := List.replicate 12 0x4e
 def errStr : Err → String
   | .nofile => "err:nofile" | .exists_ => "err:exists" | .json => "err:json"
   | .auth => "err:auth" | .privkey => "err:privkey" | .pubkey => "err:pubkey"
+  | .nonce => "err:nonce" | .emptypass => "err:emptypass" | .pubmismatch => "err:pubmismatch"
 
+/-- never printed by the model (`Spec.C19.C19_noPanic`); the real code prints these when a guard is lost -/
 def panicStr : Panic → String
   | .divZero => "panic:divzero" | .nonceLen => "panic:nonce"
 
